@@ -695,6 +695,9 @@ class Converter:
 
         def const_1d(value, name: str | None = None) -> ir.Value:
             nonlocal cached_int_consts
+            # bool is a subclass of int and True == 1: a bool bound is the integer it denotes
+            # (x[1:5:True] is x[1:5:1]); keyed as such, it cannot hand an int a BOOL tensor.
+            value = int(value)
             if value not in cached_int_consts:
                 cached_int_consts[value] = self._emit_const([value], name, info)
             return cached_int_consts[value]
